@@ -314,7 +314,8 @@ example : WF wfExample = true ∧
 example : guardLine ⟨true, 8⟩ (-128) (some 127) = .overflows ∧ guardLine ⟨false, 8⟩ 5 (some 0) = .overflows ∧
     guardLine ⟨true, 8⟩ 3 (some (-5)) = .negative ∧ guardLine ⟨true, 8⟩ 1 (some 3) = .bounds ∧
     guardLine ⟨true, 8⟩ (-128) (some (-128)) = .none ∧ guardLine ⟨false, 64⟩ 18446744073709551615 (some 18446744073709551615) = .none ∧
-    guardLine ⟨true, 8⟩ 1 none = .undefined := by decide
+    guardLine ⟨true, 8⟩ 1 none = .undefined ∧ guardLine ⟨false, 64⟩ 2 (some 18446744073709551615) = .overflows ∧
+    guardLine ⟨false, 64⟩ 2 (some 9223372036854775809) = .bounds := by decide
 
 example : trim cColor (cColor ++ cRed) = cRed ∧ trim cColor ['c', 'o', 'l', 'o', 'r', 'R'] = ['c', 'o', 'l', 'o', 'r', 'R'] ∧
     trim ['O', 'p'] ['O', 'p', 'e', 'n'] = ['e', 'n'] := by decide
